@@ -44,7 +44,7 @@ def build_str_registry(names):
 
 def make_cmps(merge):
     out = []
-    for m in merge:
+    for m in (merge or []):  # None / [] -> ModelRegistry() falls back to its default comparators
         name, _, arg = m.partition("_")
         if name == "percent":
             out.append(ModelFieldsPercentMatch(float(arg) / 100) if arg else ModelFieldsPercentMatch())
@@ -97,7 +97,7 @@ def infer(models, options):
         dict_keys_regex=[rf"^{r}$" for r in options.get("dict_keys_regex", [])],
         dict_keys_fields=list(options.get("dict_keys_fields", [])),
     )
-    reg = ModelRegistry(*make_cmps(options.get("merge", ["percent", "number"])))
+    reg = ModelRegistry(*make_cmps(options.get("merge", ["percent", "number"])))  # (merge None -> ModelRegistry())
     for name, samples in models:
         meta = gen.generate(*samples)
         reg.process_meta_data(meta, name)
